@@ -77,6 +77,8 @@ type only struct {
 	Want   outcome  `json:"want"`
 	// Redeployed: the request was made after the tree had been served once and then redeployed
 	Redeployed bool `json:"redeployed,omitempty"`
+	// Alt: the request goes to the second key of the site's server block
+	Alt bool `json:"alt,omitempty"`
 }
 
 // ---- fixture ---------------------------------------------------------------------------------------
@@ -84,7 +86,7 @@ type only struct {
 const ns = "c03"
 const user, pass = "alice", "s3cret-pw"
 
-var nodes = []string{"root/index.html", "root/d/g", "root/d/g.gz", "root/d/index.html", "root/e/g", "root/e/s/g", "root/Casketfile"}
+var nodes = []string{"root/index.html", "root/d/g", "root/d/g.gz", "root/d/index.html", "root/d/index.html.gz", "root/e/g", "root/e/s/g", "root/Casketfile"}
 
 var tokenToNode = func() map[string]string {
 	m := map[string]string{}
@@ -107,6 +109,8 @@ var prots = []protDef{
 	{"internal_d", "internal", "/d", nil},
 	{"basic_es", "basic", "/e/s", nil},
 	{"internal_es", "internal", "/e/s", nil},
+	{"internal_dindex", "internal", "/d/index.html", nil},
+	{"basic_d_exgs", "basic", "/d", []string{"/d/g/"}},
 }
 
 func protByID(id string) *protDef {
@@ -159,7 +163,8 @@ func hostOf(prot string, s shape, gz bool) string {
 
 func siteBlock(port int, root string, pd *protDef, s shape, gz bool) string {
 	var b strings.Builder
-	fmt.Fprintf(&b, "%s:%d {\n\tbind 127.0.0.1\n\ttls off\n\troot %s\n", hostOf(pd.id, s, gz), port, root)
+	// two keys per block: whatever a directive sets up per block has to hold for every site of it
+	fmt.Fprintf(&b, "%s:%d, alt.%s:%d {\n\tbind 127.0.0.1\n\ttls off\n\troot %s\n", hostOf(pd.id, s, gz), port, hostOf(pd.id, s, gz), port, root)
 	switch s.Tf {
 	case "default":
 		b.WriteString("\ttryfiles\n")
@@ -388,6 +393,9 @@ func (c *client) close() {
 func (c *client) do(prot string, on *only) (obs, error) {
 	addr := fmt.Sprintf("127.0.0.1:%d", c.f.port)
 	host := fmt.Sprintf("%s:%d", hostOf(prot, on.Shape, on.Gzip), c.f.port)
+	if on.Alt {
+		host = "alt." + host
+	}
 	hdr := authHeader(on.Creds)
 	if len(on.AE) > 0 {
 		hdr = append(hdr, "Accept-Encoding: "+strings.Join(on.AE, ", "))
@@ -665,6 +673,7 @@ func TestC03(t *testing.T) {
 					// obtained without - the token search must then report the protected content
 					on := mkOnly(c, j, seed, wrnd)
 					on.Redeployed = passNo == 1
+					on.Alt = wrnd.Intn(3) == 0
 					o, err := cl.do(c.Prot, on)
 					nreq := 1
 					var fs []finding
